@@ -39,10 +39,7 @@ func (fn *Function) Exec(thisValue r.Element, params []r.Element) (r.Element, er
 	// convert error to exception
 	if err != nil {
 		switch err.(type) {
-		case *zerr.SyntaxError:
-		case *zerr.SemanticError:
-		case *zerr.IOError:
-		case *zerr.Signal:
+		case *zerr.SyntaxError, *zerr.SemanticError, *zerr.IOError, *zerr.Signal:
 			// return the original error AS IS
 			return nil, err
 		case *Exception:
